@@ -328,4 +328,7 @@ func runC06(c *report.Ctx) {
 			c.Fail(sk(start)+":catch-up-from-syncedTo+1", "catch-up no longer starts at the stored synced-to height + 1 (a block would be skipped or applied twice after restart)", p.Pos(start.Pos()))
 		}
 	}
+
+	// ---- resumed removal re-runs step 1 -------------------------------------------------------------------------
+	ruleRemovalStepIdempotent(c)
 }
